@@ -65,4 +65,5 @@ async def main():
         print("==", n)
         print("  pyscript:", await run(src))
         print("  cpython :", py(pysrc))
-asyncio.run(main())
+if __name__ == "__main__":
+    asyncio.run(main())
